@@ -191,6 +191,7 @@ func webValidation(c *Ctx, a *flAgg, fn *ssa.Function, x *SPE) {
 	isPage := func(e *Expr) bool { return e.Op == OpCall && e.Fn != nil && e.Fn.Name() == "ToHTML" }
 	type res struct{ seen, bad bool }
 	r := map[string]*res{"maxmem": {}, "augment": {}, "similarity": {}}
+	levelBad, levelSeen := "", 0
 	for _, p := range x.Paths {
 		if len(callEvents(p, isPage)) == 0 {
 			continue
@@ -255,6 +256,45 @@ func webValidation(c *Ctx, a *flAgg, fn *ssa.Function, x *SPE) {
 		if !pos {
 			r["similarity"].bad = true
 		}
+		// the name selects the level of that name (the documented default is anypointer)
+		want := map[string]string{"exactflags": "ExactFlags", "exactlines": "ExactLines", "anypointer": "AnyPointer", "": "AnyPointer", "anyvalue": "AnyValue"}
+		chosen := ""
+		haveChosen := false
+		for _, lt := range p.Lits {
+			at := lt.Atom
+			if lt.Pol && at.Op == OpBin && at.Tok == token.EQL && strings.Contains(at.Args[0].String(), `"similarity"`) {
+				if sv, ok := constStr(at.Args[1]); ok {
+					chosen, haveChosen = sv, true
+				}
+			}
+		}
+		if haveChosen {
+			sp := c.L.pkg("stack")
+			for _, ev := range p.Events {
+				if ev.Kind == EvCall && ev.Val.Op == OpCall && ev.Val.Fn != nil && ev.Val.Fn.Name() == "Aggregate" && len(ev.Val.Args) == 3 {
+					lv, isC := ev.Val.Args[2].intConst()
+					k, _ := sp.Members[want[chosen]].(*ssa.NamedConst)
+					if k == nil {
+						levelBad = "unknown similarity name " + chosen
+						continue
+					}
+					kv, _ := (&Expr{Op: OpConst, Const: k.Value.Value}).intConst()
+					if !isC || lv != kv {
+						levelBad = fmt.Sprintf("similarity=%q aggregates at %s instead of stack.%s", chosen, ev.Val.Args[2].String(), want[chosen])
+					} else {
+						levelSeen++
+					}
+				}
+			}
+		}
+	}
+	switch {
+	case levelBad != "":
+		a.bad("WEB-validate", "SnapshotHandler/similarity-level", levelBad+": the page groups goroutines at another level than the request asked for", fn.Pos())
+	case levelSeen > 0:
+		a.ok("WEB-validate", "SnapshotHandler/similarity-level", "each similarity name (and the default) aggregates at the level of that name", fn.Pos())
+	default:
+		a.und("WEB-validate", "SnapshotHandler/similarity-level", "no page-producing path with a recognised similarity value", fn.Pos())
 	}
 	msg := map[string]string{
 		"maxmem":     "a page is produced for a provided maxmem only if it parses as an integer",
